@@ -34,6 +34,9 @@ def main():
     if "--round2" in sys.argv:
         src = f"/tmp/seed2-{prop}-out"
         name = f"{prop}-{int(k) + 2}"
+    if "--round3" in sys.argv:
+        src = f"/tmp/seed3-{prop}-out"
+        name = f"{prop}-{int(k) + 4}"
     patch = os.path.join(src, f"patch{k}.diff")
     demo = os.path.join(src, f"demo{k}.py")
     out = f"/verif/seeded/{name}"
